@@ -225,18 +225,37 @@ fn f3_case(b: &[u8; 8], cutpos: usize) {
     core::mem::forget(r);
 }
 
-#[kani::proof]
-#[kani::unwind(8)]
-fn c09_f3_overlong_rl() {
+fn f3_harness(cutpos: usize) {
     let x: [u8; 8] = kani::any();
     // fixed header, four continuation bytes, then a small valid frame [h2, 1, d]
     let b: [u8; 8] = [x[0], x[1] | 0x80, x[2] | 0x80, x[3] | 0x80, x[4] | 0x80, x[5], 1, x[7]];
-    // the error frame may itself arrive in two pieces: every cut position, concretely
-    f3_case(&b, 1);
-    f3_case(&b, 2);
-    f3_case(&b, 3);
-    f3_case(&b, 4);
-    f3_case(&b, 5);
+    f3_case(&b, cutpos);
+}
+// the error frame may itself arrive in two pieces: one harness per cut position (5 = in one piece)
+#[kani::proof]
+#[kani::unwind(8)]
+fn c09_f3_overlong_rl_cut1() {
+    f3_harness(1)
+}
+#[kani::proof]
+#[kani::unwind(8)]
+fn c09_f3_overlong_rl_cut2() {
+    f3_harness(2)
+}
+#[kani::proof]
+#[kani::unwind(8)]
+fn c09_f3_overlong_rl_cut3() {
+    f3_harness(3)
+}
+#[kani::proof]
+#[kani::unwind(8)]
+fn c09_f3_overlong_rl_cut4() {
+    f3_harness(4)
+}
+#[kani::proof]
+#[kani::unwind(8)]
+fn c09_f3_overlong_rl_cut5() {
+    f3_harness(5)
 }
 
 // ------------------------------------------------------------------ F2: all cuttings of bounded streams
